@@ -292,6 +292,18 @@ class ThreadedClientDriver(NetBase):
         self.S.settle()
         return True
 
+    def ws_frame_close(self, cid, data):
+        """the peer sends a frame and closes at once: the frame is still read, whatever the client sends next fails"""
+        ws = self.wsconns.get(cid)
+        if ws is None:
+            return False
+        ws.inbox.append(data)
+        ws.srv_closed = True
+        if ws.waiter is not None:
+            self.S.wake(ws.waiter)
+        self.S.settle()
+        return True
+
     def advance(self, ticks):
         self.S.advance(ticks / CTICK)
 
@@ -507,6 +519,16 @@ class AsyncClientDriver(NetBase):
         ws = self.wsconns.get(cid)
         if ws is None:
             return False
+        ws.srv_closed = True
+        ws.q.put_nowait(self.Msg(None, self.aiohttp.WSMsgType.CLOSED))
+        self.lp.settle()
+        return True
+
+    def ws_frame_close(self, cid, data):
+        ws = self.wsconns.get(cid)
+        if ws is None:
+            return False
+        ws.q.put_nowait(self.Msg(data, self.aiohttp.WSMsgType.TEXT if isinstance(data, str) else self.aiohttp.WSMsgType.BINARY))
         ws.srv_closed = True
         ws.q.put_nowait(self.Msg(None, self.aiohttp.WSMsgType.CLOSED))
         self.lp.settle()
